@@ -251,9 +251,11 @@ var fieldsAssignedBusy = map[*ssa.Function]bool{}
 
 func checkC15(c *Ctx) {
 	r, t := c.R, c.T
-	r.Explanation = "Decides the structural conditions under which a run cannot see earlier history: (1) RESET-COMPLETE: for each pooled type (discovered from the sync.Pool globals: parser, runtime.Task, input.Point, input.TFMeta) every field is assigned unconditionally by the acquiring function, or by every init function of the type, or cleared by the releasing function — or is one of three frozen parser exceptions whose premises are re-verified (lastClosing is never read; inject is read only under `injecting`, which InjectItem sets together with inject; yyParser is re-initialised by Parse); (2) ACQ-REL: every function that acquires a pooled task or parser releases it on every path (defer-aware typestate); (3) NO-HIDDEN-STATE: no function reachable from ParseScript/ParseV2/the linker, from Script.Run/RefRun and the builtins, or from ParsePipeline writes a package-level variable; (4) REGS: RunCallExpr resets the return registers on exit and PlReg.Reset clears every used slot and the count; the loop/exit flags of a task are re-initialised by both init functions. Not decided: equality of results across histories as behaviour (follows from these facts plus C16's write discipline)."
+	r.Explanation = "Decides the structural conditions under which a run cannot see earlier history: (1) RESET-COMPLETE: for each pooled type (discovered from the sync.Pool globals: parser, runtime.Task, input.Point, input.TFMeta) every field is assigned unconditionally by the acquiring function, or by every init function of the type, or cleared by the releasing function — or is one of three frozen parser exceptions whose premises are re-verified (lastClosing is never read; inject is read only under `injecting`, which InjectItem sets together with inject; yyParser is re-initialised by Parse); (2) ACQ-REL: every function that acquires a pooled task or parser releases it on every path (defer-aware typestate); (3) NO-HIDDEN-STATE: no function reachable from ParseScript/ParseV2/the linker, from Script.Run/RefRun and the builtins, or from ParsePipeline writes a package-level variable; (4) REGS: RunCallExpr resets the return registers on exit and PlReg.Reset clears every used slot and the count; the loop/exit flags of a task are re-initialised by both init functions. (5) APPEND-OWNED: every append whose first operand is read from a field or a package-level variable stores its result back into that same field and uses it nowhere else (an append into another object would share the backing array between two objects: what one load appends, another sees). Not decided: equality of results across histories as behaviour (follows from these facts plus C16's write discipline)."
 	pools := discoverPools(t)
 	r.FloorN("sync.Pool globals", len(pools), 4)
+	// (5) APPEND-OWNED: no slice of a shared object is extended into another object
+	r.FloorN("appends to fields", appendOwnedRule(c, "APPEND-OWNED", []string{pErr, pEngine, pRT, pRT2, pInput, pFuncs, pParser}), 5)
 	exceptions := map[string]string{
 		"parser.yyParser":    "the goyacc driver's Parse() re-initialises its own state (char, stack pointer) before reading it",
 		"parser.lastClosing": "written by Lex, never read",
@@ -951,4 +953,81 @@ func poolPairing(c *Ctx, rule string) {
 			r.Ob(rule, relName(f)+" returns its pooled object once", pos, once, "an object released twice (e.g. by a callee that releases its parameter and again by the caller's deferred release) sits in the pool twice: two later acquisitions, possibly on two goroutines, get the same object")
 		}
 	}
+}
+
+// appendOwnedRule: `append(x.F, …)` may write into spare capacity of x.F's backing array. That is harmless only when
+// the result goes back into the very field it was read from (the owner grows its own slice). If the result is put
+// anywhere else — a new object's field, a return value, another variable — two objects share one backing array, and
+// what is appended through one shows up in (or is overwritten by) the other: the outcome of one load then depends on
+// which other scripts were loaded before. Rule: every append whose first operand is loaded from a field (or a
+// package-level variable) has exactly one use, the store back to that same field of that same object.
+func appendOwnedRule(c *Ctx, rule string, pkgs []string) int {
+	r, t := c.R, c.T
+	n := 0
+	for _, pp := range pkgs {
+		for _, f := range t.PkgFuncs(pp) {
+			if pp == pParser && f.Name() == "Parse" && strings.Contains(relName(f), "yyParserImpl") {
+				// the one exception: the generated driver's grammar actions. `$$ = append($1.list, $2)` moves the list from
+				// the value-stack slot of $1, which the reduction pops, to the slot of $$: the old holder is dead.
+				continue
+			}
+			k := 0
+			allInstrs(f, func(in ssa.Instruction) {
+				call, ok := in.(*ssa.Call)
+				if !ok || builtinName(call) != "append" || len(call.Call.Args) == 0 {
+					return
+				}
+				base := call.Call.Args[0]
+				ld, ok := base.(*ssa.UnOp)
+				if !ok || ld.Op != token.MUL {
+					return
+				}
+				var owner string
+				switch a := ld.X.(type) {
+				case *ssa.FieldAddr:
+					owner = path(a)
+				case *ssa.Global:
+					owner = path(a)
+				default:
+					return
+				}
+				n++
+				k++
+				okBack, other := false, ""
+				if refs := call.Referrers(); refs != nil {
+					for _, ref := range *refs {
+						switch x := ref.(type) {
+						case *ssa.DebugRef:
+						case *ssa.Store:
+							if x.Val == ssa.Value(call) && sameAddr(x.Addr, ld.X) {
+								okBack = true
+							} else {
+								other = "stored to " + path(x.Addr)
+							}
+						case *ssa.Return:
+							other = "returned"
+						default:
+							other = fmt.Sprintf("used by %T", ref)
+						}
+					}
+				}
+				r.Ob(rule, fmt.Sprintf("%s append to %s #%d goes back into the slice it extends", relName(f), owner, k), t.Pos(call.Pos()), okBack && other == "",
+					"append(x.F, …) shares x.F's backing array with its result; the result must replace x.F and go nowhere else ("+other+") — otherwise copy first")
+			})
+		}
+	}
+	return n
+}
+
+// sameAddr: two field addresses of the same field of the same object (or the same global).
+func sameAddr(a, b ssa.Value) bool {
+	if a == b {
+		return true
+	}
+	fa, ok1 := a.(*ssa.FieldAddr)
+	fb, ok2 := b.(*ssa.FieldAddr)
+	if ok1 && ok2 {
+		return fa.Field == fb.Field && (fa.X == fb.X || sameVal(fa.X, fb.X) || path(fa.X) == path(fb.X))
+	}
+	return false
 }
